@@ -4,7 +4,7 @@ From stdpp Require Import gmap strings sets pretty sorting.
 From SK Require Import model.C15_Model proof.C15_Proof.
 From SK Require Import model.C15_Ext proof.C15_Ext proof.C15_ExtQ proof.C15_ExtP proof.C15_ExtS proof.C15_ExtL proof.C15_ExtM proof.C15_ExtH proof.C15_ExtEx.
 From SK Require Import model.C15_View proof.C15_View.
-From SK Require Import model.C16_Model proof.C15_ViewGraph.
+From SK Require Import model.C16_Model model.C15_ViewObs proof.C15_ViewGraph.
 From SK Require Import proof.C16_Defs model.C15_Repr proof.C15_Repr.
 Local Open Scope string_scope.
 
@@ -651,6 +651,21 @@ Theorem C15_view_graph_current : forall (n k nb : nat) (ops : list op3) (b : nat
      else inr (hypergraph_to_species_graph false cur)).
 Proof. exact view_graph_current. Qed.
 Print Assumptions C15_view_graph_current.
+
+(** the runner the correspondence evaluates ([run3g], model/C15_ViewObs.v) steps with [step3g]: the worlds and errors of
+    [step3], and for a view access the answer of [step3] followed by the graph built from the cached snapshot
+    ([tview (view_graph …)]: every node, arc and attribute — compared with the graph object the implementation hands out) *)
+Theorem C15_view_observed : forall (w : world3) (o : op3),
+  (step3g w o).1 = (step3 w o).1 /\
+  match o with
+  | OView b => (step3g w o).2 = Tok.L [(step3 w o).2;
+                 tview (if include_rule (b_opts (getb (backends w) b))
+                        then inl (backend_bipartite (integer_ids (b_opts (getb (backends w) b))) (include_stoich (b_opts (getb (backends w) b))) (access w b).2)
+                        else inr (hypergraph_to_species_graph false (access w b).2))]
+  | _ => (step3g w o).2 = (step3 w o).2
+  end.
+Proof. exact step3g_spec. Qed.
+Print Assumptions C15_view_observed.
 
 (** the cache works: right after an access of an existing backend, a second access hands out the same graph WITHOUT
     rebuilding and changes nothing (and so on until a store method is called on the network: [C15_view_store], [bumps]) *)
